@@ -190,6 +190,29 @@ pub fn gen_scenario(r: &mut Rng) -> Option<Scenario> {
             mixes.push("auxiliaries_are_the_only_dhw_electricity".into());
         }
     }
+    // auxiliaries of a second, single-service DHW system (all of them belong to DHW)
+    let mut wb = z.clone();
+    if aux {
+        let mut others: Vec<i32> = vec![];
+        if hp && auxid != 2 && !hp_multi {
+            others.push(2);
+        }
+        if st && auxid != 3 {
+            others.push(3);
+        }
+        if dist && auxid != 4 {
+            others.push(4);
+        }
+        if bio && auxid != 5 {
+            others.push(5);
+        }
+        if !others.is_empty() && r.chance(1, 2) {
+            let id2 = *r.pick(&others);
+            wb = vals(r, n, 4.0, 1);
+            lines.push(Line::Aux { id: id2, v: wb.clone(), comment: String::new() });
+            mixes.push("auxiliaries_on_two_dhw_systems".into());
+        }
+    }
     // part of the auxiliaries that belongs to DHW
     let w_acs: Vec<f64> = (0..n)
         .map(|i| {
@@ -253,8 +276,8 @@ pub fn gen_scenario(r: &mut Rng) -> Option<Scenario> {
     let mut el_acs = 0.0f64;
     let mut w_acs_an = 0.0f64;
     for i in 0..n {
-        let eacs = e1[i] as f64 + e2[i] as f64 + w_acs[i];
-        let u = e1[i] as f64 + e2[i] as f64 + w[i] as f64 + ilu[i] as f64 + cal_el2[i] as f64;
+        let eacs = e1[i] as f64 + e2[i] as f64 + w_acs[i] + wb[i] as f64;
+        let u = e1[i] as f64 + e2[i] as f64 + w[i] as f64 + wb[i] as f64 + ilu[i] as f64 + cal_el2[i] as f64;
         let p = pv[i] as f64;
         let ptot = p + chp[i] as f64;
         let f = if lm && u > 0.0 && ptot > 0.0 {
@@ -267,7 +290,7 @@ pub fn gen_scenario(r: &mut Rng) -> Option<Scenario> {
             pv_acs += f * p.min(u) * eacs / u;
         }
         el_acs += eacs;
-        w_acs_an += w_acs[i];
+        w_acs_an += w_acs[i] + wb[i] as f64;
     }
     let nonaux = if el_acs > 0.0 { 1.0 - w_acs_an / el_acs } else { 1.0 };
     let nearby_tot = sum(&a2) + sum(&s3) + sum(&d4) + sum(&d4b);
@@ -471,7 +494,7 @@ pub fn run(ctx: &Ctx) -> Report {
         check_scenario(ctx, &sc, t);
     });
     let mut quotas = vec![("closed_form_comparisons".to_string(), tally.get("closed_form_comparisons"), 3000), ("not_computable.error_reported".to_string(), tally.get("not_computable.error_reported"), 50)];
-    for m in ["direct_electric", "heat_pump", "heat_pump_also_heating", "solar_thermal_plus_boiler", "district_RED1", "district_RED2", "auxiliaries", "auxiliaries_are_the_only_dhw_electricity", "pv_shared_with_other_services", "load_matching", "two_biomass_types", "biomass_consumption_in_two_lines", "gas_cogeneration_present"] {
+    for m in ["direct_electric", "heat_pump", "heat_pump_also_heating", "solar_thermal_plus_boiler", "district_RED1", "district_RED2", "auxiliaries", "auxiliaries_on_two_dhw_systems", "auxiliaries_are_the_only_dhw_electricity", "pv_shared_with_other_services", "load_matching", "two_biomass_types", "biomass_consumption_in_two_lines", "gas_cogeneration_present"] {
         quotas.push((format!("mix.{m}"), tally.get(&format!("mix.{m}")), 50));
     }
     for i in ["non_epb_consumption", "other_services_non_electric_consumption", "k_exp", "area", "scaling"] {
@@ -479,7 +502,7 @@ pub fn run(ctx: &Ctx) -> Report {
     }
     Report {
         tally,
-        rule: "DHW scenarios composed from the canonical mixes (direct electric, heat pump - optionally also heating with split auxiliaries -, solar thermal + gas boiler, RED1 / RED2 with user factors, biomass / densified biomass with or without declared output, auxiliaries, PV shared with other services, gas cogeneration present, load matching), DEMANDA ACS set to the sum of the demand each mix supplies; the reported fraction is compared with the closed form computed from the generator's parameters, must lie in [0, 1], must not change under added non-EPB consumption, other services' non-electric consumption, another k_exp, another area, scaling by 2^j, and must be an error without demand, with zero demand and for biomass mixed with a non-nearby carrier without output; non-trivial = at least three mixes combined; distinct = distinct scenario".into(),
+        rule: "DHW scenarios composed from the canonical mixes (direct electric, heat pump - optionally also heating with split auxiliaries -, solar thermal + gas boiler, RED1 / RED2 with user factors, biomass / densified biomass with or without declared output, auxiliaries on one or two DHW systems, PV shared with other services, gas cogeneration present, load matching), DEMANDA ACS set to the sum of the demand each mix supplies; the reported fraction is compared with the closed form computed from the generator's parameters, must lie in [0, 1], must not change under added non-EPB consumption, other services' non-electric consumption, another k_exp, another area, scaling by 2^j, and must be an error without demand, with zero demand and for biomass mixed with a non-nearby carrier without output; non-trivial = at least three mixes combined; distinct = distinct scenario".into(),
         assumptions: vec!["closed form tolerance 1e-4 absolute (f32 library, fraction in [0, 1])".into(), "cogeneration fed by nearby fuels is not among the canonical mixes of the property and is not generated".into()],
         quotas,
     }
